@@ -100,7 +100,10 @@ def run_mutant(m, runs, with_tests, workers):
     scratch = make_scratch()
     t0 = time.time()
     try:
-        apply_mutant(scratch, m)
+        try:
+            apply_mutant(scratch, m)
+        except RuntimeError as e:
+            return dict(id=m["id"], property=m["property"], rc=-1, detected=False, n_viol=0, first=str(e), tests=None, secs=0)
         tests = None
         if with_tests:
             r = subprocess.run(["/venv/bin/python", "-m", "pytest", "-q", "-x", "-p", "no:cacheprovider"], cwd=scratch,
